@@ -130,7 +130,7 @@ def _dh_params(tier):
 
 
 @harness(P, per_job=True, params=_dh_params, max_steps=400000,
-         bounds="DH: field order p, generator g symbolic in [0, 2^(8*key_length)) for key_length in {1,2,256} quick / {1,2,3,4,32,256} thorough (small groups make values with leading zero "
+         bounds="DH: field order p >= 5 and generator 1 < g < p-1 symbolic below 2^(8*key_length) for key_length in {1,2,256} quick / {1,2,3,4,32,256} thorough (small groups make values with leading zero "
          "bytes the majority; at key_length 256 p and g are the RFC 5114 group), private key length 8..512 bits incl. a non-multiple of 8, L2 seed and ephemeral key symbolic",
          outside="other key lengths", must_reach=("dh: both sides agree", "dh: KDF parameters and fixed-width shared secret", "dh: public values are fixed width"))
 def dh_mode(c, hash_name, kl, priv_len):
@@ -141,7 +141,8 @@ def dh_mode(c, hash_name, kl, priv_len):
         p, g = prm.field_order, prm.generator
     else:
         top = (1 << (8 * kl)) - 1
-        p, g = c.int("p", 2, top), c.int("g", 0, top)
+        p, g = c.int("p", 5, top), c.int("g", 2, top)
+        c.assume(g < p - 1)  # a group a DC can hand out: generator and derived values are not the degenerate elements 0, 1, p-1 (which compute_kek refuses)
     sec_params = c.call(_gkdi.FFCDHParameters(kl, p, g).pack)
     nbytes = math.ceil(priv_len / 8)
     # --- the DC's side (MS-GKDI 3.1.4.1.2), on the same ideal primitives
